@@ -96,6 +96,8 @@ pub struct Entry {
     pub zombie: bool,
     /// println/clear/suspend/remove happened since this bar finished: its block may be gone
     pub intervened: bool,
+    /// its lines were within the painted part of the frame at the last paint
+    pub on_screen: bool,
 }
 
 #[derive(Debug, Clone)]
@@ -118,6 +120,9 @@ pub struct Model {
     pub bottom_ever: bool,
     pub max_frame_h: usize,
     pub next_tag: usize,
+    /// C19: (rows, cols) when frames are cut to the terminal height - a dropped bar that was not
+    /// painted (it did not fit) leaves no static block
+    pub fit: Option<(usize, usize)>,
 }
 
 impl Model {
@@ -126,10 +131,36 @@ impl Model {
     }
 
     /// Leading dropped bars leave the managed list at a paint: a visible one stays as a static block.
+    /// A paint happened: which members' lines are within the part of the frame that fits?
+    fn mark_on_screen(&mut self) {
+        let mut used = 0usize;
+        let mut cut = false;
+        for e in &mut self.entries {
+            let Some(lines) = &e.drawn else { continue };
+            match self.fit {
+                None => e.on_screen = true,
+                Some((rows, cols)) => {
+                    // the frame is cut at the first line that does not fit
+                    let mut all = true;
+                    for l in lines {
+                        let h = height_of(std::slice::from_ref(l), cols);
+                        if cut || used + h > rows {
+                            cut = true;
+                            all = false;
+                        } else {
+                            used += h;
+                        }
+                    }
+                    e.on_screen = all;
+                }
+            }
+        }
+    }
+
     fn reap(&mut self, text_paint: bool) {
         while self.entries.first().map_or(false, |e| e.zombie) {
             let e = self.entries.remove(0);
-            if let Some(lines) = e.drawn.filter(|l| !l.is_empty()) {
+            if let Some(lines) = e.drawn.filter(|l| !l.is_empty() && e.on_screen) {
                 self.blocks.push(Block { lines, after_log: self.log.len(), mandatory: !text_paint && !e.intervened });
             }
         }
@@ -255,6 +286,8 @@ pub struct Interp {
     pub cols: usize,
     pub rows: usize,
     /// a member with painted rows was removed and nothing was painted since
+    /// C19: the live frame is cut to the leading bar lines that fit the terminal height
+    pub cut_to_height: bool,
     pub stale_since_remove: bool,
     /// a visibly finished head bar was dropped (retained) while the screen was stale like that
     pub stale_reap_seen: bool,
@@ -269,6 +302,11 @@ pub struct Outcome {
     pub note: &'static str,
     /// result of an io::Result-returning call (mp.println, mp.clear)
     pub io_result: Option<Result<(), String>>,
+    /// static blocks created by this op (their bars were still part of the frame when it was painted)
+    pub reaped_now: usize,
+    /// the live frame as it was painted: before bars dropped earlier left the list in this op
+    pub pre_reap_frame: Option<Vec<String>>,
+    pub blocks_before: usize,
 }
 
 impl Drop for Interp {
@@ -307,7 +345,7 @@ impl Interp {
             None => ProgressDrawTarget::term_like(vt.boxed()),
         };
         let mp = MultiProgress::with_draw_target(target);
-        Interp { vt, mp: Some(mp), handles: vec![], model: Model::default(), cols, rows, stale_since_remove: false, stale_reap_seen: false }
+        Interp { vt, mp: Some(mp), handles: vec![], model: Model::default(), cols, rows, cut_to_height: false, stale_since_remove: false, stale_reap_seen: false }
     }
 
     fn entry_mut(&mut self, tag: usize) -> Option<&mut Entry> {
@@ -326,7 +364,7 @@ impl Interp {
         let mut st = BarState::new(spec.len, tpl);
         st.msg = spec.msg.clone();
         st.prefix = format!("p{tag}");
-        (pb, Entry { tag, st, on_finish: spec.on_finish % 5, drawn: None, zombie: false, intervened: false })
+        (pb, Entry { tag, st, on_finish: spec.on_finish % 5, drawn: None, zombie: false, intervened: false, on_screen: false })
     }
 
     /// a draw attempt of bar `tag`: its cached rendering is refreshed
@@ -340,7 +378,8 @@ impl Interp {
     pub fn step(&mut self, op: &MOp) -> Result<Outcome, Fail> {
         let mp = self.mp.clone().expect("mp alive");
         let n = self.handles.len();
-        let mut out = Outcome { frames: vec![], phase_frames: vec![], skipped: false, note: "", io_result: None };
+        let mut out = Outcome { frames: vec![], phase_frames: vec![], skipped: false, note: "", io_result: None, reaped_now: 0, pre_reap_frame: None, blocks_before: self.model.blocks.len() };
+        let blocks_before = self.model.blocks.len();
         let sel = |s: u16| pick(s, n);
         macro_rules! need_handle {
             ($s:expr) => {{
@@ -496,6 +535,8 @@ impl Interp {
                     if !was_finished {
                         // 1. the final draw is painted while the bar is still a live member
                         self.redraw(tag);
+                        out.pre_reap_frame = Some(self.model.frame());
+                        self.model.mark_on_screen();
                         self.model.reap(false);
                     } else {
                         paint = false; // dropping a finished bar draws nothing
@@ -508,12 +549,12 @@ impl Interp {
                     }
                     if self.model.entries.first().map_or(false, |e| e.tag == tag) {
                         let e = self.model.entries.remove(0);
-                        if let Some(lines) = e.drawn.filter(|l| !l.is_empty()) {
+                        if self.stale_since_remove && !paint && e.drawn.as_ref().map_or(false, |l| !l.is_empty()) {
+                            self.stale_reap_seen = true;
+                        }
+                        if let Some(lines) = e.drawn.filter(|l| !l.is_empty() && e.on_screen) {
                             self.model.blocks.push(Block { lines, after_log: self.model.log.len(), mandatory: !e.intervened });
                             out.note = "head_zombie_reaped";
-                            if self.stale_since_remove && !paint {
-                                self.stale_reap_seen = true;
-                            }
                         }
                     } else {
                         out.note = "non_head_zombie";
@@ -544,6 +585,10 @@ impl Interp {
             MOp::MpClear => {
                 out.io_result = Some(mp.clear().map_err(|e| e.to_string()));
                 self.model.blocks_optional();
+                reap_now = false; // clear() erases the region; it is not a draw of the bar list
+                for e in &mut self.model.entries {
+                    e.on_screen = false;
+                }
                 out.phase_frames.push((vec![], self.model.log.len()));
             }
             MOp::MpSuspend(lines) | MOp::BarSuspend(_, lines) => {
@@ -611,9 +656,12 @@ impl Interp {
                 self.model.blocks_optional();
             }
             if reap_now {
+                out.pre_reap_frame = Some(self.model.frame());
+                self.model.mark_on_screen();
                 self.model.reap(text_paint);
             }
         }
+        out.reaped_now = self.model.blocks.len().saturating_sub(blocks_before);
         out.frames = self.vt.take_frames();
         if !out.frames.is_empty() {
             self.stale_since_remove = false;
@@ -630,7 +678,14 @@ impl Interp {
                 Some((f, l)) => (f.clone(), *l),
                 None => (self.model.frame(), self.model.log.len()),
             };
+            // what was painted is the frame before dropped bars left the list in this op
+            let use_pre = out.phase_frames.get(k).is_none() && out.pre_reap_frame.is_some();
+            let frame = if use_pre { out.pre_reap_frame.clone().unwrap() } else { frame };
+            let frame = if self.cut_to_height { fit_prefix(&frame, self.rows, self.cols) } else { frame };
             let mut m = self.model.clone();
+            if use_pre {
+                m.blocks.truncate(out.blocks_before);
+            }
             m.log.truncate(log_len);
             for b in &mut m.blocks {
                 b.after_log = b.after_log.min(log_len);
@@ -642,6 +697,21 @@ impl Interp {
         }
         Ok(())
     }
+}
+
+/// The leading lines whose wrapped rows fit into `rows` (C19: "only the leading bars that fit").
+pub fn fit_prefix(lines: &[String], rows: usize, cols: usize) -> Vec<String> {
+    let mut h = 0;
+    let mut out = vec![];
+    for l in lines {
+        let lh = height_of(std::slice::from_ref(l), cols);
+        if h + lh > rows {
+            break;
+        }
+        h += lh;
+        out.push(l.clone());
+    }
+    out
 }
 
 // ------------------------------------------------------------------------------------------
